@@ -51,6 +51,10 @@ func H_C05_forest() {
 	names := c05NameSets[rt.Param(3)]
 	c05Names := append(append([]string{}, names...), "y")[:2] // (kinds of an unused second name stay 0)
 	h := NewH()
+	rootKind := 0
+	if rt.Param(4) == 1 {
+		rootKind = 1 + rt.Choice(3)
+	}
 	parent := make([]int, N) // -1 = Obj
 	kinds := make([][]int, N)
 	miss := make([]bool, N)
@@ -88,7 +92,9 @@ func H_C05_forest() {
 		rt.Note(src)
 		objs[i] = h.EvalNoPanic(src)
 		_, ok := objs[i].(*object.PanObj)
-		rt.Assert(ok, "bear / bro / literal must build an object")
+		rt.Assert(ok || rootKind > 0, "bear / bro / literal must build an object")
+		_, isErr := objs[i].(*object.PanErr)
+		rt.Assert(!isErr, "bear / bro / literal must build an object")
 	}
 	chain := func(j int) []int {
 		var c []int
@@ -103,13 +109,18 @@ func H_C05_forest() {
 		pr := h.EvalNoPanic(fmt.Sprintf("o%d.proto", j))
 		if parent[j] >= 0 {
 			rt.Assert(pr == objs[parent[j]], "proto must be the object the value was born from (bear) or its sibling's proto (bro)")
+		} else if rootKind > 0 {
+			rt.Assert(pr.Type() == []object.PanObjType{"", object.StrType, object.ArrType, object.IntType}[rootKind], "proto must be the value the object was born from")
 		} else {
 			rt.Assert(pr == object.BuiltInObjObj, "an object literal's proto must be Obj")
 		}
 		// ancestors
 		an := h.EvalNoPanic(fmt.Sprintf("o%d.ancestors", j))
 		anArr, ok := an.(*object.PanArr)
-		rt.Assert(ok && len(anArr.Elems) == len(ch)-1+2, "ancestors must list the whole proto chain up to BaseObj")
+		rt.Assert(ok && (rootKind > 0 || len(anArr.Elems) == len(ch)-1+2), "ancestors must list the whole proto chain up to BaseObj")
+		if !ok {
+			return
+		}
 		for k := 1; k < len(ch); k++ {
 			rt.Assert(anArr.Elems[k-1] == objs[ch[k]], "ancestors must follow the search order")
 		}
